@@ -153,6 +153,7 @@ class Ctx:
         self.nondet = []          # cases whose observation differed between two processes (state carried between cases)
         self.wlog = {}            # pid -> list of (seq, fn-name, case): execution history of every worker process
         self.prefork = []         # cases executed in the coordinating process through run_case
+        self.part_wall = {}
         self.states = 0
         self.transitions = 0
         self.traces = 0
@@ -211,6 +212,7 @@ class Ctx:
         """run fn over all cases on the worker pool; deterministic merge in index order"""
         cases = list(cases)
         n = len(cases)
+        _t0 = time.time()
         self.space(part, n, quiet)
         if n == 0:
             return []
@@ -235,6 +237,7 @@ class Ctx:
                 self.nondet.append((part, repr(cases[i])[:300]))
         for i, r in flat:
             self._absorb(part, fn, cases[i], r)
+        self.part_wall[part] = round(self.part_wall.get(part, 0) + time.time() - _t0, 2)
         return [r.get('payload') for _, r in flat]
 
     def run_case(self, part, fn, case, horizon=60.0):
@@ -344,6 +347,7 @@ def finish(ctx: Ctx, rule_nt: str):
         'stats': ctx.stats,
         'known_findings_seen': sorted(seen_known),
         'workers': NPROC,
+        'wall_s_per_part': ctx.part_wall,
     }
     if ctx.level == 'model_checking':
         cov['states'] = int(ctx.states)
